@@ -1,6 +1,6 @@
 (* Wire entry points of the C02 model (standard combination on uniform trapezoidal grids). *)
 From Coq Require Import ZArith List Bool QArith Qcanon.
-From SG Require Import Base.Sx Base.QcUtil Model.CombiScheme Model.StdCombi Model.TrapGrid1DArea Model.StdCombiTol Proofs.SchemeStd Proofs.StdCombiSum Proofs.StdUnion.
+From SG Require Import Base.Sx Base.QcUtil Model.CombiScheme Model.StdCombi Model.TrapGrid1DArea Model.StdCombiTol Model.StdCombiVec Proofs.SchemeStd Proofs.StdCombiSum Proofs.StdUnion Proofs.StdCount.
 Import ListNotations.
 Open Scope Z_scope.
 
@@ -59,7 +59,9 @@ Definition entry_C02 (sub : Z) (arg : sx) : sx :=
              of_LQc (map (combi_integral boundary a b cs) fs);
              Zv (combi_total_points boundary cs);
              (if want_pw =? 0 then Lv []
-              else Lv (map (fun pw => Lv [of_LQc (fst pw); of_Qc (snd pw)]) (combi_points_weights boundary a b cs))) ]
+              else Lv (map (fun pw => Lv [of_LQc (fst pw); of_Qc (snd pw)]) (combi_points_weights boundary a b cs)));
+             (* get_total_num_points(distinct_function_evals=False): sum_l prod N(l_d)  [Proofs/StdCount.v] *)
+             Zv (combi_total_points_naive boundary cs) ]
       | None => sx_err 2
       end
     | _, _, _ => sx_err 1
@@ -85,6 +87,20 @@ Definition entry_C02 (sub : Z) (arg : sx) : sx :=
         let cl := if variant =? 0 then cl_numpy else if variant =? 1 then cl_domain else cl_exact in
         let cs := combi_scheme_standard (length a) lmin lmax in
         Lv (map (fun f => of_LQc (map (combi_interp_tol cl false a b cs f) pts)) fs)
+      | None => sx_err 2
+      end
+    | _, _, _ => sx_err 1
+    end
+  (* sub 4: (boundary a b lmin lmax (fspec ...) coords) -> the matrix StandardCombi.interpolate_grid returns for the vector-valued
+       function with these components: rows in get_cross_product (itertools.product) order, one column per output component,
+       computed by the code-shaped accumulation of Model/StdCombiVec.v (zeros; += component result * coefficient) *)
+  | 4, Lv [Zv bd; a; b; Zv lmin; Zv lmax; Lv fss; coords] =>
+    match get_LQc a, get_LQc b, get_LLQc coords with
+    | Some a, Some b, Some coords =>
+      match opt_all (map (get_fun a b) fss) with
+      | Some fs =>
+        let cs := combi_scheme_standard (length a) lmin lmax in
+        of_LLQc (combi_interp_grid (negb (bd =? 0)) a b cs (vec_fun fs) (length fs) coords)
       | None => sx_err 2
       end
     | _, _, _ => sx_err 1
